@@ -144,7 +144,7 @@ func TestC14Release(t *testing.T) {
 		if len(voids) > 0 {
 			faultEvery = rapid.SampledFrom([]int{0, 1, 2, 5}).Draw(rt, "faultEvery")
 		}
-		ctxKinds := rapid.SliceOfN(rapid.IntRange(0, 3), 1, 4).Draw(rt, "ctxkinds")
+		ctxKinds := rapid.SliceOfN(rapid.IntRange(0, 4), 1, 4).Draw(rt, "ctxkinds")
 		ids := w.M.AllIdents()
 		nget := rapid.IntRange(0, 4).Draw(rt, "nget")
 		var getIDs []kit.Ident
@@ -190,6 +190,13 @@ func TestC14Release(t *testing.T) {
 				return c
 			case 3:
 				return foreign
+			case 4:
+				// a context that is already cancelled (the client went away before the scope was
+				// asked for): whether the creation is refused or yields a scope that is closed at
+				// once, nothing of it may stay behind
+				c, cancel := context.WithCancel(context.Background())
+				cancel()
+				return c
 			}
 			return nil
 		}
